@@ -29,7 +29,7 @@ var Props = map[string]PropSpec{
 		Rule:        "one evaluation = one generated operation history (20-160 ops) on a stack of real stores (base dbadapter|iavl, cachekv/prefix layers, nesting <=5) over a 5-letter key alphabet; a case is distinct by (layer kind, iterator direction, result length, nesting depth) of an executed range read; non-trivial = the read was compared against the parent-relative overlay model",
 		Assumptions: storeAssume, RealStub: storeRealStub},
 	"C02": {Engine: "storesim", Level: "exploration", QuickS: 25, ThoroughS: 600, MinBudget: 600,
-		Rule:        "as C01 with prefix layers favoured (prefixes incl. empty, ff, ffff); a case is distinct by (layer kind, direction, result length, depth)",
+		Rule:        "as C01 with prefix layers favoured (prefixes incl. empty, ff, ffff); a case is distinct by (layer kind, direction, result length, depth); the prefix slice handed to the store may have spare capacity; range bounds include the empty bound that is not nil",
 		Assumptions: storeAssume, RealStub: storeRealStub},
 	"C03": {Engine: "storesim", Level: "exploration", QuickS: 30, ThoroughS: 900, MinBudget: 500,
 		Rule:        "one evaluation = one history (30-300 ops) of set/remove/save/delete-version/lazy-load on iavl.MutableTree with node cache in {1,2,8,10^4}; every check compares Get/Has/GetByIndex/IterateRange(both directions)/Size on the working tree and on every retained version with per-version maps and walks the node shape (hook H2); distinct case = (retained versions, working size) at a full check",
@@ -38,7 +38,7 @@ var Props = map[string]PropSpec{
 		Rule:        "even seeds: iavl tree histories with reopen (fresh MutableTree over the surviving simdb, random node-cache size) and a never-reopened twin; odd seeds: rootmulti with 1-5 IAVL sub-stores, reopen and twin node; distinct case = (retained versions at a reopen / check)",
 		Assumptions: storeAssume, RealStub: storeRealStub},
 	"C05": {Engine: "storesim", Level: "exploration", QuickS: 30, ThoroughS: 900, MinBudget: 300,
-		Rule:        "one evaluation = one multistore history with interleaved proof queries at committed versions; each proof is verified by a light-client actor against the recorded commit hash and then every single-field alteration (key, value, root, store name, each inner-node height/size/version/left/right, each leaf key/value-hash/version, each store-info name/hash, presence<->absence claim) must fail; distinct case = (present|absent, key position class)",
+		Rule:        "one evaluation = one multistore history with interleaved proof queries at committed versions; each proof is verified by a light-client actor against the recorded commit hash and then every single-field alteration (key, value, root, store name, each inner-node height/size/version/left/right, each leaf key/value-hash/version, each store-info name/hash, presence<->absence claim) must fail; distinct case = (present|absent, key position class); also offered and required to fail: a path node given the hash of its other child as well, a made-up substore entry placed before the honest list under the same store name, an absence proof for a stored key recombined from the genuine existence proofs of a smaller and a larger key, and an existence proof for an absent key in which a stored leaf (whose value spells out a made-up leaf) stands as a path node; stored values include the empty value",
 		Assumptions: append([]string{"the version field of a multistore store-info is not part of the commit hash by design and is not altered"}, storeAssume...), RealStub: storeRealStub},
 	"C07": {Engine: "storesim", Level: "fault_enumeration", QuickS: 30, ThoroughS: 900, MinBudget: 300,
 		Rule:           "one evaluation = one multistore history (2-6 IAVL sub-stores) in which selected commits are run against a write-logging simdb; for each such commit EVERY crash image is rebuilt (any subset of sub-stores saved, any cut inside a multi-write save, every prefix of the multistore's own records) and reopened, compared with the last fully committed state, the interrupted block is re-executed and one further block committed; distinct case = (sub-store count, writes in block, previous height class); every third seed asks the same of a whole node (chainsim): blocks of a generated chain history are committed normally, then the application database is rebuilt as (state before Commit + the first k of the n recorded write units of that Commit), the node is restarted over it with the transaction index as before the block, and either reports the new height with exactly the committed state and app hash, or reports the previous height with exactly its state and re-executes the block to the same results, app hash and state; the run continues on the recovered node",
@@ -49,10 +49,10 @@ var Props = map[string]PropSpec{
 		Rule:        "one evaluation = one multistore history with rollbacks to random earlier heights (fresh mounted store -> RollbackVersion -> reopen), then replay of the recorded blocks; distinct case = (rollback depth, blocks replayed)",
 		Assumptions: storeAssume, RealStub: storeRealStub},
 	"C09": {Engine: "storesim", Level: "exploration", QuickS: 30, ThoroughS: 900, MinBudget: 300,
-		Rule:        "one evaluation = one multistore history with historical views (LoadLazyVersion, CacheMultiStoreWithVersion) opened at random retained heights, held across later writes/commits/other views and re-read; distinct case = (view mode, lag behind the tip)",
+		Rule:        "one evaluation = one multistore history with historical views (LoadLazyVersion, CacheMultiStoreWithVersion) opened at random retained heights, held across later writes/commits/other views and re-read; distinct case = (view mode, lag behind the tip); store queries /<store>/key and /<store>/subspace at committed heights are compared with the committed contents while the working tree holds uncommitted writes; the storage node runs with the height cache on for every other seed",
 		Assumptions: storeAssume, RealStub: storeRealStub},
 	"C10": {Engine: "storesim", Level: "exploration", QuickS: 30, ThoroughS: 900, MinBudget: 300,
-		Rule:        "one evaluation = one history applied to two multistores, height cache on and off; reads (present/absent keys, Has, forward and reverse ranges) at heights the cache serves are compared between the two, nil distinguished from empty; distinct case = (lag, keys, ranges)",
+		Rule:        "one evaluation = one history applied to two multistores, height cache on and off; reads (present/absent keys, Has, forward and reverse ranges) at heights the cache serves are compared between the two, nil distinguished from empty; distinct case = (lag, keys, ranges); range bounds include the empty bound that is not nil, stored values include the empty value",
 		Assumptions: storeAssume, RealStub: storeRealStub},
 }
 
